@@ -955,6 +955,9 @@ def call_method(h: Any, recv: AV, name: str, args: List[AV], kwargs: Dict[str, A
         ctx.atom_info[("truth", "term", t.id)] = {"kind": "regex", "mode": name, "pattern": recv.args[0] if recv.args else None, "subject": args[0] if args else None, "pos": args[1] if len(args) > 1 else None}
         return t
     if isinstance(recv, Term) and recv.op in ("strmeth", "concat", "fstr", "str", "repr", "ascii", "join", "json.dumps", "strslice", "canonical"):
+        if name == "partition" and recv.op == "strmeth" and isinstance(recv.args[0], SymStr) and recv.args[1] in ("lower", "upper", "casefold") and not recv.args[2] and len(args) == 1 and isinstance(args[0], Const) and isinstance(args[0].value, str) and args[0].value:
+            # pieces of a case-folded lexeme: derived lexemes as for SymStr.partition
+            return PyTuple(tuple(Term("strpart", (recv, name, args[0].value, k), ctx.new_id()) for k in range(3)))
         if name in ("startswith", "endswith") or name in STR_PREDICATES:
             key = ("strpred", name, recv.id, repr(args))
             ctx.atom_info[key] = {"kind": "strpred", "name": name, "recv": recv, "args": list(args)}
